@@ -82,6 +82,15 @@ var readOnlyPkgs = map[string]bool{
 	"github.com/gobwas/glob": true, "github.com/gosuri/uitable": true,
 }
 
+// functions of otherwise writing packages that only read their arguments
+var readOnlyFuncs = map[string]bool{
+	"encoding/json.Marshal": true, "encoding/json.MarshalIndent": true, "encoding/json.Valid": true,
+	"sigs.k8s.io/yaml.Marshal": true, "sigs.k8s.io/yaml.JSONToYAML": true, "sigs.k8s.io/yaml.YAMLToJSON": true,
+	"bytes.NewReader": true, "bytes.NewBuffer": true, "bytes.NewBufferString": true, "bytes.Equal": true,
+	"bytes.HasPrefix": true, "bytes.TrimPrefix": true, "bytes.TrimSpace": true, "bytes.Contains": true,
+	"io.ReadAll": true, "sort.Strings": false,
+}
+
 type modAnalysis struct {
 	ctx        *Ctx
 	summary    map[*ssa.Function]*ModSet
@@ -416,10 +425,23 @@ func (ma *modAnalysis) commonMods(common *ssa.CallCommon) ModSet {
 		return ms
 	}
 	if sc := common.StaticCallee(); sc != nil {
-		ms.union(ma.calleeMods(sc))
+		cm := ma.calleeMods(sc)
+		ms.union(cm)
 		// function-typed and interface-typed arguments of body-less callees may be called back
 		if len(sc.Blocks) == 0 {
 			ms.union(ma.callbackMods(sc, common.Args))
+		}
+		// a pointer / map / slice boxed into an interface argument (json.Unmarshal(b, &x), a helm
+		// wrapper around it ...) can be written through by code that has no body here
+		if cm.opaque && !ma.readOnlyCallee(sc) {
+			for _, a := range common.Args {
+				if mi, ok := a.(*ssa.MakeInterface); ok {
+					switch mi.X.Type().Underlying().(type) {
+					case *types.Pointer, *types.Map, *types.Slice:
+						ma.typeReach(mi.X.Type(), 0, map[string]bool{}, &ms)
+					}
+				}
+			}
 		}
 		return ms
 	}
@@ -480,6 +502,11 @@ func (ma *modAnalysis) calleeMods(fn *ssa.Function) ModSet {
 		ms.opaque = true
 		return ms
 	}
+	if readOnlyFuncs[pkg+"."+fn.Name()] {
+		ma.externUsed["read-only: "+pkg+"."+fn.Name()] = true
+		ms.opaque = true
+		return ms
+	}
 	ma.externUsed["type-reach: "+fn.String()] = true
 	ms.opaque = true
 	sig := fn.Signature
@@ -499,6 +526,23 @@ func (ma *modAnalysis) calleeMods(fn *ssa.Function) ModSet {
 	ma.reachCache[k] = r
 	ms.union(r)
 	return ms
+}
+
+func (ma *modAnalysis) readOnlyCallee(fn *ssa.Function) bool {
+	if fc := ma.ctx.contracts.Funcs[funcKey(fn)]; fc != nil && fc.Pure {
+		return true
+	}
+	if len(fn.Blocks) > 0 {
+		return false
+	}
+	pkg := ""
+	if fn.Pkg != nil {
+		pkg = fn.Pkg.Pkg.Path()
+	} else if fn.Object() != nil && fn.Object().Pkg() != nil {
+		pkg = fn.Object().Pkg().Path()
+	}
+	ro, listed := readOnlyPkgs[pkg]
+	return (listed && ro) || readOnlyFuncs[pkg+"."+fn.Name()]
 }
 
 func (ma *modAnalysis) typeReach(t types.Type, depth int, seen map[string]bool, out *ModSet) {
